@@ -418,11 +418,27 @@ impl<'a> ExpressionVisitor<'a> for CodeBuilder<'a> {
                         arguments[1].type_desc(),
                     )?;
                     match ty {
-                        TypeKind::BOOL
-                        | TypeKind::DOUBLE
-                        | TypeKind::INT
-                        | TypeKind::UINT
-                        | TypeKind::STRING => Ok((ty, arguments)),
+                        TypeKind::UINT => {
+                            // std::max(unsigned, int) can't be deduced in C++, so give
+                            // an integer literal the unsigned type.
+                            let arguments = arguments
+                                .into_iter()
+                                .map(|a| match a {
+                                    Operand::Constant(Constant {
+                                        value: ConstantValue::Integer(_),
+                                        ..
+                                    }) => {
+                                        let r = a.byte_range();
+                                        self.emit_result(TypeKind::UINT, Rvalue::Copy(a), r)
+                                    }
+                                    a => a,
+                                })
+                                .collect();
+                            Ok((ty, arguments))
+                        }
+                        TypeKind::BOOL | TypeKind::DOUBLE | TypeKind::INT | TypeKind::STRING => {
+                            Ok((ty, arguments))
+                        }
                         _ => Err(ExpressionError::OperationOnUnsupportedType(
                             op.to_owned(),
                             TypeDesc::Concrete(ty),
